@@ -136,15 +136,18 @@ type hop struct {
 	lmtp  bool
 	cur   *atomic.Int32
 	plans map[int]*hopPlan
-	srv   *smtpd.Server
+	// mid: per logical transaction, the mid-DATA fault of the history (the hop
+	// acts on hop-abort only: it drops the connection while the payload streams in)
+	mid map[int]*midPlan
+	srv *smtpd.Server
 
 	mu       sync.Mutex
 	mailSeen map[int]int
 	seenTxn  map[[2]int]bool
 }
 
-func newHop(label string, lmtp, utf8 bool, cur *atomic.Int32, plans map[int]*hopPlan) (*hop, error) {
-	h := &hop{label: label, utf8: utf8, lmtp: lmtp, cur: cur, plans: plans, mailSeen: map[int]int{}, seenTxn: map[[2]int]bool{}}
+func newHop(label string, lmtp, utf8 bool, cur *atomic.Int32, plans map[int]*hopPlan, mid map[int]*midPlan) (*hop, error) {
+	h := &hop{label: label, utf8: utf8, lmtp: lmtp, cur: cur, plans: plans, mid: mid, mailSeen: map[int]int{}, seenTxn: map[[2]int]bool{}}
 	// The ephemeral port range is shared with every other check running on the
 	// machine; when it is exhausted (sockets in TIME_WAIT) binding fails for a
 	// while. Wait it out; the caller turns a final failure into "inconclusive".
@@ -164,6 +167,13 @@ func newHop(label string, lmtp, utf8 bool, cur *atomic.Int32, plans map[int]*hop
 func (h *hop) script(ev smtpd.Event) *smtpd.Action {
 	t := int(h.cur.Load())
 	p := h.plans[t]
+	if ev.Stage == smtpd.StageData && (p == nil || p.DataCode == 0) {
+		if m := h.mid[t]; m.abortsAt(h.label) {
+			// 354, read a little of the payload, then drop the connection in the
+			// middle of the message
+			return &smtpd.Action{AbortPayloadAfter: m.AbortAfter, RST: m.AbortRST}
+		}
+	}
 	if p == nil {
 		return nil
 	}
